@@ -34,6 +34,22 @@ func (r *rng) u8() uint8         { return uint8(r.u64()) }
 func (r *rng) chance(n int) bool { return r.intn(n) == 0 }
 func (r *rng) fork() *rng        { return &rng{s: r.u64()} }
 
+// tfield returns an XR thinning value: usually four bits, sometimes with bits the wire cannot carry.
+func (r *rng) tfield() uint8 {
+	if r.chance(4) {
+		return r.u8()
+	}
+	return r.u8() & 0x0F
+}
+
+// smallU8 is zero a quarter of the time.
+func (r *rng) smallU8() uint8 {
+	if r.chance(4) {
+		return 0
+	}
+	return r.u8()
+}
+
 // interesting 32-bit values
 func (r *rng) ssrc() uint32 {
 	switch r.intn(8) {
@@ -366,7 +382,7 @@ func genNACK(r *rng, sz int) *rtcp.TransportLayerNack {
 func genTWCC(r *rng, sz int) *rtcp.TransportLayerCC {
 	t := &rtcp.TransportLayerCC{
 		SenderSSRC: r.ssrc(), MediaSSRC: r.ssrc(), BaseSequenceNumber: r.u16(),
-		ReferenceTime: r.u32() & 0xFFFFFF, FbPktCount: r.u8(),
+		ReferenceTime: r.u32() & 0xFFFFFF, FbPktCount: r.smallU8(),
 	}
 	nChunks := 0
 	switch sz {
@@ -467,7 +483,7 @@ func genCCFB(r *rng, sz int) *rtcp.CCFeedbackReport {
 			nm = 300 + r.intn(500)
 		}
 		if sz == szBad && i == 0 {
-			if r.chance(8) {
+			if r.chance(40) {
 				nm = 16385 + r.intn(3) // too many metric blocks (expensive: String is quadratic)
 			} else {
 				nm = 1 + r.intn(6)
@@ -574,11 +590,11 @@ func genXRBlock(r *rng, kind int, sz int) rtcp.ReportBlock {
 	}
 	switch kind {
 	case 0:
-		return &rtcp.LossRLEReportBlock{T: r.u8() & 0x0F, SSRC: r.ssrc(), BeginSeq: r.u16(), EndSeq: r.u16(), Chunks: genChunks(r, n)}
+		return &rtcp.LossRLEReportBlock{T: r.tfield(), SSRC: r.ssrc(), BeginSeq: r.u16(), EndSeq: r.u16(), Chunks: genChunks(r, n)}
 	case 1:
-		return &rtcp.DuplicateRLEReportBlock{T: r.u8() & 0x0F, SSRC: r.ssrc(), BeginSeq: r.u16(), EndSeq: r.u16(), Chunks: genChunks(r, n)}
+		return &rtcp.DuplicateRLEReportBlock{T: r.tfield(), SSRC: r.ssrc(), BeginSeq: r.u16(), EndSeq: r.u16(), Chunks: genChunks(r, n)}
 	case 2:
-		b := &rtcp.PacketReceiptTimesReportBlock{T: r.u8() & 0x0F, SSRC: r.ssrc(), BeginSeq: r.u16(), EndSeq: r.u16()}
+		b := &rtcp.PacketReceiptTimesReportBlock{T: r.tfield(), SSRC: r.ssrc(), BeginSeq: r.u16(), EndSeq: r.u16()}
 		if n > 0 || r.chance(2) {
 			b.ReceiptTime = r.spareU32(n)
 		}
@@ -663,6 +679,9 @@ func genRaw(r *rng, sz int) *rtcp.RawPacket {
 		fmtv = []byte{0, 3, 6, 7, 8, 9, 10, 12, 13, 14, 16, 31}[r.intn(12)]
 	}
 	b[0] = 0x80 | fmtv
+	if r.chance(4) && len(b) > 4 {
+		b[0] |= 0x20 // padding flag; the last octet (any value) is then the pad count
+	}
 	b[1] = pt
 	b[2] = byte(words >> 8)
 	b[3] = byte(words)
